@@ -155,7 +155,7 @@ class CancelSem(Semantics):
         return state
 
 
-def run(ctx):
+def _run_structural(ctx):
     fi, sem, outs, steps = explore_task(ctx)
     idx = ctx.index
     info = scheduler_info(ctx)
@@ -418,3 +418,26 @@ def run(ctx):
 
 def dotted_has_param(expr, pname):
     return any(isinstance(n, ast.Name) and n.id == pname for n in ast.walk(expr))
+
+
+def run(ctx):
+    """Structural rules first; the task coroutine evaluated under fault and cancellation injection decides where they do not recognise the shape."""
+    from ..loader import AnalysisError
+    from .evalhelpers import cached_witness, task_coroutine_witness, cancel_task_witness
+    wit = cached_witness(ctx, "task", task_coroutine_witness)
+    n0 = len(ctx.rules)
+    try:
+        _run_structural(ctx)
+    except (AnalysisError, Exception) as exc:
+        if wit[2] is not None:
+            raise  # neither the structural rules nor the evaluation can follow this code
+        r0 = ctx.rule("R0", "the structural rules cannot follow this shape of the task coroutine; decided by evaluation under fault and cancellation injection")
+        r0.info("src/gwf/backends/local.py::Scheduler.try_handle_task", f"structural analysis stopped: {type(exc).__name__}: {str(exc)[:120]}")
+        for r in ctx.rules[n0:]:
+            r.min_instances = 0
+    rules = ctx.rules[n0:]
+    pred = lambda c: any(k in c for k in ("try_handle_task", "_gentle_kill", "create_subprocess", "kill"))
+    ctx.reconcile(rules, pred, wit, "src/gwf/backends/local.py::Scheduler.try_handle_task", "src/gwf/backends/local.py:1")
+    cw = cached_witness(ctx, "cancel_task", cancel_task_witness)
+    r3 = [r for r in rules if r.id.endswith(".R3")] or rules
+    ctx.reconcile(r3, lambda c: "cancel" in c, cw, "src/gwf/backends/local.py::Scheduler.cancel_task", "src/gwf/backends/local.py:1")
